@@ -4,7 +4,7 @@ import Fs.Model.Tx
 
 Request:  `tx  run  <shared 0|1>  <init>  <events>`
   init   := tables separated by `|`, each a `,`-separated list of `k.v` rows (or empty)
-  events := `;`-separated: `C` connect · `K<c>` conn.cursor() · `X<k>:<stmt>` cursor k executes ·
+  events := `;`-separated: `C` connect(database, schema) · `Cn` connect() without database/schema · `K<c>` conn.cursor() · `X<k>:<stmt>` cursor k executes ·
             `M<c>` conn.commit() · `R<c>` conn.rollback()
   stmt   := `b` BEGIN · `c` COMMIT · `r` ROLLBACK · `s<t>` select · `i<t>.<k>.<v>` · `d<t>.<k>` · `u<t>.<k>.<v>` ·
             `ft` missing table · `fc` missing column · `fr` run-time failure · `fm` MERGE whose clause fails to bind · `k` SELECT 1
@@ -45,7 +45,7 @@ def parseStmt (s : String) : Option Stmt :=
 def parseEv (s : String) : Option Ev :=
   let tl := (s.drop 1).toString
   match s.front with
-  | 'C' => some .connect
+  | 'C' => some (.connect (tl != "n"))
   | 'K' => tl.toNat?.map .cursor
   | 'M' => tl.toNat?.map .connCommit
   | 'R' => tl.toNat?.map .connRollback
